@@ -883,4 +883,24 @@ def live_lengths(repo: Repo) -> RuleRun:
 
 live_lengths.rule_id = "C09.LIVE-LENGTHS"
 
-RULES = [arc_sense, purity, no_alias_store, affine_balance, unit_normal, direction_parts, transform_equals_methods, transform_routing, linear_parts, deep_copy, mirror_matrix, no_shared_parts, arguments_untouched, super_forwarding, inplace_then_read, invalidate_last, live_lengths]
+def private_coordinates(repo: Repo) -> RuleRun:
+    """'transformation helpers do not modify the arrays passed to them' - nor keep them: coordinates handed to an entity are stored as private copies. Same rule as C12.BACKPORT-OWNS-POINTS."""
+    from ..report import rebrand
+    from . import c12
+
+    return rebrand(c12.backport_owns_points(repo), PROP, "C09.PRIVATE-COORDINATES")
+
+
+private_coordinates.rule_id = "C09.PRIVATE-COORDINATES"
+
+def live_arrays(repo: Repo) -> RuleRun:
+    """'transforming an entity equals transforming its output': a curve reads its points through the array object that transformations re-bind, never through a snapshot of its storage. Same rule as C16.STALE-ALIAS."""
+    from ..report import rebrand
+    from . import c16
+
+    return rebrand(c16.stale_alias(repo), PROP, "C09.LIVE-ARRAYS")
+
+
+live_arrays.rule_id = "C09.LIVE-ARRAYS"
+
+RULES = [arc_sense, purity, no_alias_store, affine_balance, unit_normal, direction_parts, transform_equals_methods, transform_routing, linear_parts, deep_copy, mirror_matrix, no_shared_parts, arguments_untouched, super_forwarding, inplace_then_read, invalidate_last, live_lengths, private_coordinates, live_arrays]
